@@ -52,12 +52,18 @@ def run(R):
     for it in tc.first_per_case(rep.anomaly)[:3]:
         ops = tc.case_ops(text, it["case"], max(it["op"], 1))
         R.oracle_failure("anomaly:" + " ".join(it["text"].split(" ")[3:8]), "implementation-side anomaly: " + it["text"][:300], dict(ops=ops, detail=it["text"][:1500]))
+    # purely structural differences (RIB/FIB node sets, side tables) are C08's business (checks/C08_tables.py): noted only
+    STRUCT = ("nodes", "pfx", "virt", "vn", "rnodes")
     if not rep.oracle:
-        for it in tc.first_per_case(rep.diverge)[:3]:
+        obs = [d for d in rep.diverge if d["kind"] not in STRUCT]
+        for it in tc.first_per_case(obs)[:3]:
             ops = tc.case_ops(text, it["case"], it["op"])
             ops = tc.shrink(R, exe, h, "rib", ops, lambda r, k=it["kind"]: any(x["kind"] == k for x in r.diverge), budget=40)
             R.divergence("model of the RIB (+ %s FIB) differs from the implementation on %s" % ("name tree" if it["label"] == "T" else "hash table", it["kind"]),
                          dict(ops=ops, detail=it["text"][:1500]))
+        struct = [d for d in rep.diverge if d["kind"] in STRUCT]
+        if struct:
+            R.notes.append("white-box structure differs from the model in %d observation(s) (first: %s); lookups and listings agree; see C08 (tables part)" % (len(struct), struct[0]["text"][:300]))
     return R.finish()
 
 def replay(R, path):
